@@ -6,6 +6,7 @@ import (
 	stdjson "encoding/json"
 	"fmt"
 	"math/rand"
+	"reflect"
 	"runtime"
 	"sort"
 	"strings"
@@ -49,7 +50,8 @@ type c10Op struct {
 	alone func() string
 }
 
-var c10Next int64 // next unused zoo14 type of this process
+var c10Next int64
+var c10RT int64 // next unused zoo14 type of this process
 
 func c10Trial(c *rt.Ctx, sub int, r *rand.Rand, G, procs, opsPer int, yieldMode int) {
 	old := runtime.GOMAXPROCS(procs)
@@ -81,11 +83,60 @@ func c10Trial(c *rt.Ctx, sub int, r *rand.Rand, G, procs, opsPer int, yieldMode 
 	recVals := []any{chainRecB(3), chainRecE(2), &zoo.RecSlice{Name: "r", Kids: []zoo.RecSlice{{Name: "k", I: 1.5}}, I: []any{"x"}}, map[string]any{"m": []any{1.0, "s", nil}}, zoo.Tags{Plain: 1, Renamed: 2, Str: 3}, []zoo.MV{{N: 1}, {N: 2}}}
 	utilDocs := [][]byte{gen.Doc(r, 3), gen.Doc(r, 2), []byte(`{"a" : [1, 2 , {"b":null}] }`), []byte(`[1,]`), []byte(`{"x":"<&>"}`)}
 
+	// struct types nobody has seen before, with an interface member: every goroutine compiles them
+	// at the same moment, all but one lose the publication, and the nested program of the interface
+	// value runs while the losers' outer programs are referenced by nothing the collector sees
+	var freshRT []reflect.Type
+	var freshTag []string
+	for i := 0; i < 6; i++ {
+		tag := fmt.Sprintf("rt%d_%d", atomic.AddInt64(&c10Next, 0), atomic.AddInt64(&c10RT, 1))
+		freshTag = append(freshTag, tag)
+		freshRT = append(freshRT, reflect.StructOf([]reflect.StructField{
+			{Name: "F", Type: reflect.TypeOf(0), Tag: reflect.StructTag(`json:"` + tag + `"`)},
+			{Name: "I", Type: reflect.TypeOf((*any)(nil)).Elem()},
+			{Name: "R", Type: reflect.TypeOf((*QT)(nil))},
+			{Name: "Z", Type: reflect.TypeOf("")},
+		}))
+	}
 	mkOps := func(g int, rr *rand.Rand) []c10Op {
 		var ops []c10Op
 		for k := 0; k < opsPer; k++ {
 			id := g*100000 + k
-			switch rr.Intn(17) {
+			switch rr.Intn(22) {
+			case 19, 20:
+				ti := rr.Intn(len(freshRT))
+				ops = append(ops, c10Op{name: "Marshal:fresh-struct-with-interface", run: func() (string, string) {
+					v := reflect.New(freshRT[ti]).Elem()
+					v.Field(0).SetInt(int64(id))
+					v.Field(1).Set(reflect.ValueOf(map[string]any{"k": []any{id, map[string]any{"d": []any{id, "x"}}}}))
+					v.Field(2).Set(reflect.ValueOf(&QT{A: id, C: &QT{A: 1, B: "in"}}))
+					v.Field(3).SetString("z")
+					b, err := gojson.Marshal(v.Addr().Interface())
+					return string(b) + errS(err), fmt.Sprintf(`{"%s":%d,"I":{"k":[%d,{"d":[%d,"x"]}]},"R":{"A":%d,"B":"","C":{"A":1,"B":"in","C":null,"D":null,"E":null},"D":null,"E":null},"Z":"z"}`, freshTag[ti], id, id, id, id)
+				}})
+			case 21:
+				ops = append(ops, c10Op{name: "runtime.GC", run: func() (string, string) { runtime.GC(); return "", "" }})
+			case 17, 18:
+				// a query nobody has used before (the unknown name makes its hash unique) on the shared
+				// type: every goroutine adds to that type's query cache at the same time
+				mask := 1 + rr.Intn(15)
+				var names []gojson.FieldQueryString
+				var want []string
+				for bi, nm := range []string{"A", "B", "D", "E"} {
+					if mask&(1<<uint(bi)) != 0 {
+						names = append(names, gojson.FieldQueryString(nm))
+						want = append(want, []string{fmt.Sprintf(`"A":%d`, id), `"B":"cq"`, `"D":[1]`, `"E":{"e":1}`}[bi])
+					}
+				}
+				names = append(names, gojson.FieldQueryString(fmt.Sprintf("zz%d", id)))
+				ops = append(ops, c10Op{name: "MarshalContext:cold-query", run: func() (string, string) {
+					q, err := gojson.BuildFieldQuery(names...)
+					if err != nil {
+						return "build: " + err.Error(), "ok"
+					}
+					b, err := gojson.MarshalContext(gojson.SetFieldQueryToContext(context.Background(), q), QT{A: id, B: "cq", D: []int{1}, E: map[string]int{"e": 1}})
+					return string(b) + errS(err), "{" + strings.Join(want, ",") + "}"
+				}})
 			case 13:
 				// stream decodes of slices (pooled scratch arrays), a stream that ends right behind an
 				// element first; the payload carries the operation's id
